@@ -52,6 +52,19 @@ def run_nfkc(scratch):
     return out
 
 
+def run_human_min(scratch):
+    out = {"failures": [], "stats": {}, "samples": [], "notes": ["human_repr() escaping minimality: every printable ASCII character in every component (enumeration on the implementation)"]}
+    for b in _backends(scratch):
+        r = _run(scratch, "human_min.py", [], b)
+        for f in r.get("failures", []):
+            f["backend"] = b
+            out["failures"].append(f)
+        out["stats"]["human_min_cases[%s]" % b] = r.get("checked", 0)
+        out["stats"]["evaluations"] = out["stats"].get("evaluations", 0) + r.get("checked", 0)
+        out["samples"].append({"backend": b, "cases": r.get("checked"), "escapes_needed": r.get("escapes_needed")})
+    return out
+
+
 def build_faultalloc():
     d = os.path.join(core.VERIF, "harness", "build")
     os.makedirs(d, exist_ok=True)
